@@ -123,6 +123,9 @@ def make_P(ctx, cfg, universes, nontrivial, rule, quick_beh=150, thorough_beh=30
            design=True, env=None, gen="cover", assumptions=()):
     cat = export_catalogue(ctx)
     denv = {"VERIF_UNIVERSES": ",".join(universes)}
+    if not (env or {}).get("VERIF_MODE"):
+        # minimal reproductions of defects this machinery found (now fixed in /repo): kept so that a regression is reported
+        denv["VERIF_SCRIPT"] = os.path.join(core.HARNESS, "cmd", "calcgraph", "regress.json")
     denv.update(env or {})
     if gen == "cover":
         g = {"module": "Gen_CalcEnv", "cfg": "Gen_cover.cfg", "thorough_cfg": "Gen_cover3.cfg", "workers": 1,
